@@ -827,8 +827,9 @@ def generate(rng, tier):
             if (n + off) % 9 == 0:
                 cases.append(_spec_case(rng, sp))
     nbad = 60 if tier == "quick" else 600
+    src = cases[:2000] + [c for c in cases if c.startswith("cs ")][:500]
     for _ in range(nbad):
-        cases.append(_malformed(rng, rng.choice(cases[:2000] + cases[-500:])))
+        cases.append(_malformed(rng, rng.choice(src)))
     return cases
 
 
